@@ -156,8 +156,8 @@ sharness! {
         put_be64(&mut p.h, 24, pre.pending_id);
         p.h[1] = 0;
         let mut rm: i8 = 0;
-        let mut run = |b0: u8, b12: u8, b14: u8, b15: u8| {
-            p.set_hdr(b0, b12, b14, b15);
+        let mut run = |b0: u8, b12: u8, b14: u8, b15: u8, last: u8| {
+            p.set_hdr(b0, b12, b14, b15, last);
             rm = rate_body(&mut src, &pre, p.bytes());
         };
         for_v5hdr!(quick, sel, run);
@@ -234,8 +234,8 @@ sharness! {
         put_be64(&mut p.h, 24, pre.pending_id);
         p.h[1] = 0;
         p.h[2] = 127;
-        let mut run = |b0: u8, b12: u8, b14: u8, b15: u8| {
-            p.set_hdr(b0, b12, b14, b15);
+        let mut run = |b0: u8, b12: u8, b14: u8, b15: u8, last: u8| {
+            p.set_hdr(b0, b12, b14, b15, last);
             deny_body(&mut src, &pre, p.bytes());
         };
         for_v5hdr!(quick, sel, run);
@@ -292,8 +292,8 @@ sharness! {
         let mut p = any_pkt5();
         let sel: u8 = kani::any();
         p.h[1] = 0;
-        let mut run = |b0: u8, b12: u8, b14: u8, b15: u8| {
-            p.set_hdr(b0, b12, b14, b15);
+        let mut run = |b0: u8, b12: u8, b14: u8, b15: u8, last: u8| {
+            p.set_hdr(b0, b12, b14, b15, last);
             other_body(&mut src, &pre, p.bytes());
         };
         for_v5hdr!(all, sel, run);
